@@ -27,6 +27,12 @@ def rt_job(j):
     from pyrates import CircuitTemplate, clear_frontend_caches
     p = j['p']
     try:
+        if j.get('first'):          # the same relative path held another model before: saved, loaded, caches cleared
+            other = dict(p['prog'], nodes=[dict(n, c=n['c'] + 1, a=n['a'] - 1) for n in p['prog']['nodes']],
+                         edges=[dict(e, w=e['w'] + 1) for e in p['prog']['edges']])
+            build_distinct(other, hier=j['hier']).to_yaml('saved/model_file.yaml')
+            CircuitTemplate.from_yaml('saved/model_file/net')
+            clear_frontend_caches()
         c = build_distinct(p['prog'], hier=j['hier'])
         c.to_yaml('saved/model_file.yaml')
         clear_frontend_caches()
@@ -113,6 +119,82 @@ def derive_job(j):
         return dict(exc=type(e).__name__, msg=str(e)[:300], tb=traceback.format_exc()[-500:])
 
 
+def derive_spec_job(case):
+    """spec/Derive.tla case through OperatorTemplate.update_template and through YAML `base:`: derived equations must be
+    the token-wise edit of the parent's plus the added equations verbatim; the parent keeps its equations"""
+    import warnings, os, copy
+    warnings.filterwarnings('ignore')
+    from ruamel.yaml import YAML
+    from pyrates import OperatorTemplate, clear_frontend_caches
+    ed = case['ed']
+    names = ['x', 'r_in', 'k', 'x_v1', 'rr', 'r', 'u', 'g', 'y']
+    def decl(eqs):
+        txt = ' '.join(eqs)
+        return {v: ('output(0.5)' if v == 'x' else 'variable(0.25)' if v in ('x_v1', 'u', 'g') else 1.5) for v in names if v in txt}
+    def edit():
+        d = {}
+        if ed['rep']:
+            d['replace'] = {ed['rep'][0]: ed['rep'][1]}
+        if ed['rem']:
+            d['remove'] = [ed['rem']]
+        if ed['app']:
+            d['append'] = ed['app']
+        if ed['pre']:
+            d['prepend'] = ed['pre']
+        if ed['add']:
+            d['add'] = list(ed['add'])
+        return d
+    out = {}
+    try:
+        base = OperatorTemplate('base_op', equations=list(case['base']), variables=decl(case['base']))
+        d = base.update_template(name='derived_op', equations=edit(), variables={k: v for k, v in decl(case['derived']).items()
+                                                                               if k not in decl(case['base'])} or None)
+        out['py'] = dict(derived=list(d.equations), base=list(base.equations))
+    except Exception as e:
+        out['py'] = dict(exc=type(e).__name__, msg=str(e)[:200])
+    try:
+        os.makedirs('dtmpl', exist_ok=True)
+        doc = {'base_op': {'base': 'OperatorTemplate', 'equations': list(case['base']), 'variables': decl(case['base'])},
+               'derived_op': {'base': 'base_op', 'equations': edit(),
+                              'variables': {k: v for k, v in decl(case['derived']).items() if k not in decl(case['base'])}}}
+        if not doc['derived_op']['variables']:
+            del doc['derived_op']['variables']
+        with open('dtmpl/ops.yaml', 'w') as f:
+            YAML(typ='safe', pure=True).dump(doc, f)
+        clear_frontend_caches()
+        d = OperatorTemplate.from_yaml('dtmpl/ops/derived_op')
+        b = OperatorTemplate.from_yaml('dtmpl/ops/base_op')
+        out['yaml'] = dict(derived=list(d.equations), base=list(b.equations))
+    except Exception as e:
+        out['yaml'] = dict(exc=type(e).__name__, msg=str(e)[:200])
+    return out
+
+
+def derive_spec(ctx):
+    c = tlc.cfg(constants=dict(Dev=set()), invariants=['DerivedIsEdit', 'BaseUntouched', 'Export'])
+    r = tlc.run_tlc('Derive', c, workers=8, defs=dict(Cases='DeriveCases'), timeout=1200)
+    ctx.add_tlc('derive', r, 'derived equations = token-wise edit + added equations verbatim; parent untouched')
+    if not r['ok']:
+        ctx.spec_violation('derive', r)
+    for dev in ('AddedEquationsEditedToo', 'AddExtendsParentList'):
+        rv = tlc.run_tlc('Derive', tlc.cfg(constants=dict(Dev={dev}), invariants=['DerivedIsEdit', 'BaseUntouched']), workers=8,
+                         defs=dict(Cases='DeriveCases'))
+        ctx.add_tlc(f'vacuity:{dev}', rv, 'must violate')
+        if rv['violated'] is None:
+            ctx.violation(dict(kind='spec', what=f'deviation {dev} not detected'))
+    cases = r['exports'].get('DER', [])
+    for cse, o in zip(cases, run_cases(derive_spec_job, cases, timeout=300)):
+        if 'harness_error' in o:
+            raise RuntimeError(f'replay failed: {o}')
+        ctx.replayed += 1
+        ctx.case(key=['derive-spec', cse['base'], cse['ed']], nontrivial=cse['nontrivial'])
+        exp = dict(derived=cse['derived'], base=cse['base'])
+        for form in ('py', 'yaml'):
+            if o[form] != exp:
+                ctx.violation(dict(kind='conformance', what=f'derived operator ({form} form): equations of the derived / parent template',
+                                   case=dict(base=cse['base'], ed=cse['ed'], form=form), observed=o[form], expected=exp))
+
+
 def run(ctx):
     tier = ctx.tier
     ctx.rule = ('(A) Replace.tla: every equation of <= 4 (5) tokens over identifiers that contain one another and every term: TLC checks '
@@ -148,18 +230,19 @@ def run(ctx):
     for e in eqs:
         ctx.case(key=[e['text'], e['term']], nontrivial=e['hits'] >= 1)
     ctx.sample(dict(kind='replace', **eqs[len(eqs) // 2]))
+    derive_spec(ctx)
     # (B)
     progs = c01.tlc_programs(ctx, 'round-trip', 'Programs({"L", "P", "S"}, 1, 2, 2, {FALSE, TRUE})')
     rng = random.Random(ctx.seed); rng.shuffle(progs)
     progs = [p for p in progs if not (p['d43'])][:150 if tier == 'quick' else 3000]
-    jobs = [dict(p=p, hier=k % 2, vec=(k % 3 != 0), again=(k % 5 == 0)) for k, p in enumerate(progs)]
+    jobs = [dict(p=p, hier=k % 2, vec=(k % 3 != 0), again=(k % 5 == 0), first=(k % 4 == 1)) for k, p in enumerate(progs)]
     jobs = [j for j in jobs if not (j['vec'] and j['p']['d42'])]
     for j, o in zip(jobs, run_cases(rt_job, jobs, timeout=600)):
         if 'harness_error' in o:
             raise RuntimeError(f'replay failed: {o}')
         ctx.replayed += 1
-        ctx.case(key=['rt', j['p']['prog'], j['hier'], j['vec'], j['again']], nontrivial=True)
-        c01.judge(ctx, j['p'], dict(hier=j['hier'], vec=j['vec'], again=j['again'], form='yaml-round-trip'), o, 'field of the saved and re-loaded circuit vs Denote')
+        ctx.case(key=['rt', j['p']['prog'], j['hier'], j['vec'], j['again'], j['first']], nontrivial=True)
+        c01.judge(ctx, j['p'], dict(hier=j['hier'], vec=j['vec'], again=j['again'], first=j['first'], form='yaml-round-trip'), o, 'field of the saved and re-loaded circuit vs Denote')
     # (C)
     djobs = derive_cases(tier)
     for j, o in zip(djobs, run_cases(derive_job, djobs, timeout=300)):
